@@ -9,3 +9,4 @@ package routers
 //@ spec routeFound(r *http.Request) bool
 //@ iface (Router).FindRoute (self, req)
 //@   ensures (result.2 == nil) <==> routeFound(req)
+//@   ensures result.2 == nil ==> routeWF(result.0)
